@@ -42,23 +42,28 @@ Lemma end_in_finish_run c m w r cu s n v :
   In (OEnd n v) (snd (finish_run c m w r cu s)) -> n = m /\ v = verdict_of c m w cu.
 Proof. cbn. intros [H|[H|[]]]; [discriminate|]. inversion H. auto. Qed.
 
-(* which reactions announce the end of a run, and with which verdict *)
+(* which reactions announce the end of a run, and with which verdict; the run is then over *)
 Lemma end_in_reaction c s e n v : In (OEnd n v) (snd (reaction c s e)) ->
-  v = VCancelled \/
-  (v = VTrue /\ members c n = [] /\ exists o, e = EBegin n o) \/
-  (sd_inline s n = true /\ rcanc (Rn s n) = false /\
-   v = verdict_of c n (why_of s n) (culprit_of (outs_of e)) /\
-   exists k d o, e = EWake n k d o /\ (k = KShut \/ k = KShTidy)).
+  ph (Rn (fst (reaction c s e)) n) = POver /\
+  (v = VCancelled \/
+   (v = VTrue /\ members c n = [] /\ exists o, e = EBegin n o) \/
+   (sd_inline s n = true /\ rcanc (Rn s n) = false /\
+    v = verdict_of c n (why_of s n) (culprit_of (outs_of e)) /\
+    exists k d o, e = EWake n k d o /\ (k = KShut \/ k = KShTidy))).
 Proof.
-  destruct e as [m o|m k d o|m k o|m o|j|j oc|j|j|j|j|j|j|j|j|t|t|jv sv]; cbn [reaction snd];
+  destruct e as [m o|m k d o|m k o|m o|j|j oc|j|j|j|j|j|j|j|j|t|t|jv sv]; cbn [reaction snd fst];
     try (intros []).
   - (* EBegin *)
     unfold react_begin. destruct (members c m) eqn:Em.
-    + cbn. intros [H|[]]. inversion H; subst. right. left. split; [reflexivity|]. split; [exact Em|]. eauto.
+    + cbn [snd fst]. intros [H|[]]. inversion H; subst. split.
+      * match goal with |- context [job_leave c n ?x ?S0] =>
+          pose proof (Rn_job_leave_q c n x S0 n) as (H1 & _) end.
+        rewrite H1, Rn_setR_same. reflexivity.
+      * right. left. split; [reflexivity|]. split; [exact Em|]. eauto.
     + cbn [snd]. intros H. apply in_app_iff in H. destruct H as [H|[H|[]]].
       * exfalso. apply (not_end_create n v _ H).
       * discriminate.
-  - destruct k; cbn [reaction snd].
+  - destruct k; cbn [reaction snd fst].
     + (* main *) unfold react_main.
       destruct d as [|d0 d'].
       * intros H. exfalso. eapply end_in_exit_main; eauto.
@@ -68,34 +73,50 @@ Proof.
         -- exfalso. apply (not_end_create n v _ H).
         -- discriminate.
     + (* tidy *) unfold react_tidy. destruct (rcanc (Rn s m)).
-      * intros H. apply end_in_end_cancelled in H. left. tauto.
+      * intros H. apply end_in_end_cancelled in H. destruct H as [-> ->].
+        split; [apply Rn_end_cancelled_n|left; reflexivity].
       * intros H. exfalso. eapply end_in_shutdown_start; eauto.
-    + intros H. apply end_in_end_cancelled in H. left. tauto.
+    + intros H. apply end_in_end_cancelled in H. destruct H as [-> ->].
+      split; [apply Rn_end_cancelled_n|left; reflexivity].
     + (* shut *) unfold react_shut, react_shut_wake.
       destruct d as [|p0 p'].
       * cbn [app]. destruct (sd_inline s m) eqn:Ein.
         -- destruct (rcanc (Rn s m)) eqn:Erc.
-           ++ cbn [snd]. intros [H|[H|[]]]; [discriminate|]. inversion H. left. reflexivity.
+           ++ match goal with |- In _ (snd (let '(s2, mo2) := ?F in _)) -> _ =>
+                pose proof (Rn_end_cancelled_n c m (setS s m (mkSst SdOver true (sdl (Sd s m)) [] (scanc (Sd s m))))) as [HP _];
+                destruct F as [s2 mo2] eqn:EF end.
+              cbn [snd fst]. intros [H|H]; [discriminate|].
+              assert (Emo : mo2 = [OEnd m VCancelled]) by (cbn in EF; inversion EF; reflexivity).
+              subst mo2. destruct H as [H|[]]. inversion H; subst. split; [exact HP|left; reflexivity].
            ++ match goal with |- In _ (snd (let '(s2, mo2) := ?F in _)) -> _ =>
                 pose proof (end_in_finish_run c m (why_of s m) SRTrue (culprit_of o)
                   (setS s m (mkSst SdOver true (sdl (Sd s m)) [] (scanc (Sd s m)))) n v) as HF;
+                pose proof (Rn_finish_run_n c m (why_of s m) SRTrue (culprit_of o)
+                  (setS s m (mkSst SdOver true (sdl (Sd s m)) [] (scanc (Sd s m))))) as [HP _];
                 destruct F as [s2 mo2] end.
-              cbn [snd app]. intros H. destruct (HF H) as [-> ->].
-              right. right. split; [exact Ein|]. split; [exact Erc|]. split; [reflexivity|].
+              cbn [snd fst app]. intros H. destruct (HF H) as [-> ->].
+              split; [exact HP|]. right. right. split; [exact Ein|]. split; [exact Erc|]. split; [reflexivity|].
               exists KShut, [], o. auto.
         -- cbn [snd]. intros [H|[]]. discriminate.
       * cbn [snd]. intros [H|[]]. discriminate.
     + (* shtidy *) unfold react_shtidy, react_shtidy_wake.
       destruct (sd_inline s m) eqn:Ein.
       * destruct (rcanc (Rn s m)) eqn:Erc.
-        -- cbn [snd]. intros [H|[H|[]]]; [discriminate|]. inversion H. left. reflexivity.
-        -- intros H. apply end_in_finish_run in H. destruct H as [-> ->].
+        -- match goal with |- In _ (snd (let '(s2, mo2) := ?F in _)) -> _ =>
+             pose proof (Rn_end_cancelled_n c m (setS s m (mkSst SdOver true (sdl (Sd s m)) [] (scanc (Sd s m))))) as [HP _];
+             destruct F as [s2 mo2] eqn:EF end.
+           cbn [snd fst]. intros [H|H]; [discriminate|].
+           assert (Emo : mo2 = [OEnd m VCancelled]) by (cbn in EF; inversion EF; reflexivity).
+           subst mo2. destruct H as [H|[]]. inversion H; subst. split; [exact HP|left; reflexivity].
+        -- intros H. pose proof H as H'. apply end_in_finish_run in H. destruct H as [-> ->].
+           split; [apply Rn_finish_run_n|].
            right. right. split; [exact Ein|]. split; [exact Erc|]. split; [reflexivity|].
            exists KShTidy, d, o. auto.
       * cbn [snd]. intros [H|[]]. discriminate.
-  - destruct k; cbn [reaction snd].
+  - destruct k; cbn [reaction snd fst].
     + unfold react_cancel_main. destruct (filter _ _).
-      * intros H. apply end_in_end_cancelled in H. left. tauto.
+      * intros H. apply end_in_end_cancelled in H. destruct H as [-> ->].
+        split; [apply Rn_end_cancelled_n|left; reflexivity].
       * cbn. intros [H|[]]. discriminate.
     + cbn. intros [H|[]]. discriminate.
     + cbn. intros [H|[]]. discriminate.
@@ -103,7 +124,8 @@ Proof.
     + unfold react_cancel_shut. destruct (sd_inline s m); cbn; intros [H|[]]; discriminate.
   - unfold react_sdstart. intros H. exfalso.
     pose proof (end_in_shutdown_start c m false (setH s m (mkHst HRunning false None)) n v) as HF.
-    destruct (shutdown_start c m false (setH s m (mkHst HRunning false None))). apply HF. exact H.
+    destruct (shutdown_start c m false (setH s m (mkHst HRunning false None))) as [s1 mo].
+    cbn [snd] in H. apply HF. exact H.
 Qed.
 
 (* ------------------------------------------------------------------ observed outputs vs model outputs *)
@@ -312,7 +334,7 @@ Proof.
   unfold chk_end. apply forallb_forall. intros o Ho. destruct o as [| | | | |n v]; try reflexivity.
   pose proof (accepted_core lvl c s e s' Hs (or_intror I)) as Hm.
   pose proof (outs_match_end _ _ n v Hm Ho) as Hin.
-  destruct (end_in_reaction c s e n v Hin) as [Ev|[(Ev & Hem & _)|(Hi & Hrc & Ev & k & d & o & Ee & Hk)]]; subst.
+  destruct (end_in_reaction c s e n v Hin) as [_ [Ev|[(Ev & Hem & _)|(Hi & Hrc & Ev & k & d & o & Ee & Hk)]]]; subst.
   - unfold end_ok. destruct (members c n); [reflexivity|]. destruct (Nat.eqb (nfinite c n) 0); reflexivity.
   - unfold end_ok. rewrite Hem. reflexivity.
   - assert (Hph : ph (Rn s n) = PShut (why_of s n)).
